@@ -343,6 +343,15 @@ fn crafted_ct(d: &BigUint, x: &BigUint, y: &BigUint, x_wire: &BigUint, msg: &[u8
 }
 
 pub fn run_c06(p: &mut Prng, _t: Tier, i: usize, sink: &mut Sink) {
+    if i < 4 {
+        // a hand-built ciphertext whose key stream t is all zero (C2 = M): GB/T 32918.4 B4 says
+        // "if t is all zero, report an error". Reachable on purpose only with a searched nonce.
+        let mut z = World::new();
+        let mut zp = crate::runner::sample_prng("C06-zero-t", i);
+        rare_retry_session(&mut zp, &mut z);
+        z.bump("fault.crafted-zero-keystream");
+        sink.done(z);
+    }
     let mut w = World::new();
     let order = ORDERS[i % 2];
     let comp = (i / 2) % 2 == 1;
